@@ -347,13 +347,13 @@ Proof.
     + lia.
 Qed.
 
-Lemma emit_field_shape_value sp sigs env e : brace_fill sp = false -> vexpr_ok sigs env e ->
+Lemma emit_field_shape_value sp sigs env e : vexpr_ok sigs env e ->
   emit_field sp (vshape sigs e) (vraw sigs env e) =
   match py_format sp (vdenote sigs env e) with
   | Some t => Ok t
   | None => Err (match f_type sp with Some Ts => 3 | _ => 2 end)
   end.
-Proof. intros Hb Hok. unfold emit_field. rewrite Hb, norm_raw_denote by auto. reflexivity. Qed.
+Proof. intros Hok. unfold emit_field. rewrite norm_raw_denote by auto. reflexivity. Qed.
 
 (* ------------------------------------------------------------------ *)
 (* activity: a statement acts iff all enclosing conditions hold           *)
@@ -830,9 +830,7 @@ Fixpoint format_wf (sigs : list shape) (env : list Z) (f : format) : Prop :=
   | [] => True
   | CLit _ :: r => format_wf sigs env r
   | CField e s :: r =>
-      vexpr_ok sigs env e /\
-      (forall sp, field_spec sigs e s = Some sp -> brace_fill sp = false) /\
-      format_wf sigs env r
+      vexpr_ok sigs env e /\ format_wf sigs env r
   end.
 
 Lemma py_format_s_decodes sp v t : f_type sp = Some Ts -> py_format sp v = Some t ->
@@ -846,7 +844,7 @@ Lemma args_check_ok sigs env f txt : format_wf sigs env f -> spec_text sigs env 
 Proof.
   revert txt. induction f as [|[t|e s] f IH]; intros txt Hwf Hs; cbn [args_check]; [reflexivity| |].
   - cbn [spec_text] in Hs. destruct (spec_text sigs env f) as [t'|]; [|discriminate]. eapply IH; eauto.
-  - cbn [spec_text format_wf] in *. destruct Hwf as (Hok & _ & Hwf).
+  - cbn [spec_text format_wf] in *. destruct Hwf as (Hok & Hwf).
     destruct (field_spec sigs e s) as [sp|]; [|discriminate].
     destruct (py_format sp (vdenote sigs env e)) as [t|] eqn:Ep; [|discriminate].
     destruct (spec_text sigs env f) as [t'|]; [|discriminate].
@@ -862,7 +860,7 @@ Proof.
   - injection Hs as <-. rewrite app_nil_r. reflexivity.
   - destruct (spec_text sigs env f) as [t'|]; [|discriminate]. injection Hs as <-.
     rewrite (IH t' (acc ++ t)) by auto. rewrite app_assoc. reflexivity.
-  - destruct Hwf as (Hok & Hb & Hwf).
+  - destruct Hwf as (Hok & Hwf).
     destruct (field_spec sigs e s) as [sp|]; [|discriminate].
     destruct (py_format sp (vdenote sigs env e)) as [t|] eqn:Ep; [|discriminate].
     destruct (spec_text sigs env f) as [t'|]; [|discriminate]. injection Hs as <-.
